@@ -431,8 +431,13 @@ def run_batch(machine, tier, verif_seed, workers, runs_override=None, want_diges
 # --------------------------------------------------------------------------- minimisation
 
 
+_MIN_WALL_S = float(os.environ.get("VERIF_MINIMISE_WALL_S", "150"))
+
+
 def _same(machine, case, clause, budget, guard_s, prelude=()):
-    if budget[0] <= 0:
+    # two budgets: a count (deterministic) and a generous wall cap that only matters for worlds
+    # whose single evaluation is slow; running out of either costs minimality, never the verdict
+    if budget[0] <= 0 or (len(budget) > 1 and time.time() > budget[1]):
         return False
     budget[0] -= 1
     res = eval_isolated(machine, list(prelude) + [case], guard_s)
@@ -468,7 +473,7 @@ def minimise(machine, case, clause, max_evals=1200, guard_s=10.0, prelude=()):
     """ddmin over the operation list, then machine-specific shrinking of
     arguments and world, keeping only candidates that fail with the same clause.
     Every evaluation runs in a freshly forked child (``prelude`` cases first)."""
-    budget = [max_evals]
+    budget = [max_evals, time.time() + _MIN_WALL_S]
     case = json.loads(json.dumps(case))
     ops = case.get("ops", [])
 
